@@ -253,10 +253,13 @@ func c17R3(h H) {
 
 func c17R4(h H) {
 	r := h.r
-	r.Rule("R4", "strictest-of merge, decided as a decision table: makeHTTPServerWithTimeouts and makeHTTPServerWithHeaderLimit are evaluated abstractly (E10: booleans concrete, durations/sizes as ordered symbols) for every group of 0–3 (thorough tier: 0–4) sites, every combination of set/unset and every relative order of the set values; in every case each listener setting must come out as the smallest value among the sites that set it, and as the default (header limit: untouched) exactly when no site set it", 2)
+	r.Rule("R4", "strictest-of merge, decided as a decision table: makeHTTPServerWithTimeouts and makeHTTPServerWithHeaderLimit are evaluated abstractly (E10: booleans concrete, durations/sizes as ordered symbols) for every group of 0–3 (thorough tier: 0–4) sites, every combination of set/unset and every relative order of the set values; each set timeout being a positive value or `none` (0); in every case each listener setting must come out as the smallest positive value among the sites that set it (none, the least strict value, only when every setting is none), and as the default (header limit: untouched) exactly when no site set it", 2)
 	fields := []string{"ReadTimeout", "ReadHeaderTimeout", "WriteTimeout", "IdleTimeout"}
 	symRank := func(rank []int) func(a, b aval) (int, bool) {
 		rk := func(v aval) (int, bool) {
+			if n, isInt := v.(aint); isInt && n == 0 {
+				return -1, true // zero ("none", or nothing yet): below every configured positive value
+			}
 			s, ok := v.(asym)
 			if !ok || !strings.HasPrefix(s.name, "v") {
 				return 0, false
@@ -339,8 +342,30 @@ func c17R4(h H) {
 	if fn := h.fn("R4", hs, "makeHTTPServerWithTimeouts"); fn != nil {
 		bad := ""
 		nrun := 0
+		// a site that sets a timeout sets it to a positive value or to "none" (0: no timeout, the least strict value)
+		type tcase struct {
+			caseT
+			none []bool
+		}
+		var tcases []tcase
 		for _, c := range cases {
-			c := c
+			n := len(c.set)
+			for m := 0; m < 1<<n; m++ {
+				none := make([]bool, n)
+				okMask := true
+				for i := range none {
+					none[i] = m&(1<<i) != 0
+					if none[i] && !c.set[i] {
+						okMask = false
+					}
+				}
+				if okMask {
+					tcases = append(tcases, tcase{c, none})
+				}
+			}
+		}
+		for _, tc := range tcases {
+			c, none := tc.caseT, tc.none
 			env := &absEnv{cmp: symRank(c.rank), globals: map[string]*aobj{}}
 			if g := fnPkgVar(fn, "defaultTimeouts"); g != nil {
 				env.globals["defaultTimeouts"] = &aobj{name: "defaultTimeouts", typ: g, f: map[string]aval{}, in: func(o *aobj, path string, t types.Type) aval {
@@ -360,7 +385,7 @@ func c17R4(h H) {
 								return abool(c.set[i])
 							}
 							if path == "Timeouts."+f {
-								if c.set[i] {
+								if c.set[i] && !none[i] {
 									return asym{sprintf("v%d", i)}
 								}
 								return aint(0)
@@ -382,10 +407,29 @@ func c17R4(h H) {
 					bad = caseDesc(c) + ": result is not a server: " + describeAval(res)
 					return false
 				}
+				// specification: the smallest positive value any site sets; no timeout (0) when the only values set
+				// are "none"; the default when no site sets it
+				pos := caseT{set: make([]bool, len(c.set)), rank: c.rank}
+				anyNone := false
+				for i := range c.set {
+					pos.set[i] = c.set[i] && !none[i]
+					anyNone = anyNone || none[i]
+				}
+				desc := caseDesc(c)
+				if anyNone {
+					desc += sprintf(" (set to none: %v)", none)
+				}
 				for _, f := range fields {
 					got := env.load(p.obj, f)
-					if ok, why := okResult(c, got, "default."+f); !ok {
-						bad = caseDesc(c) + ": " + f + ": " + why
+					if _, anyPos := want(pos); !anyPos && anyNone {
+						if n, isInt := got.(aint); !isInt || n != 0 {
+							bad = desc + ": " + f + ": every site that sets it sets it to none: want 0 (no timeout), got " + describeAval(got)
+							return false
+						}
+						continue
+					}
+					if ok, why := okResult(pos, got, "default."+f); !ok {
+						bad = desc + ": " + f + ": " + why + " (none is the least strict value: a positive value set by another site wins)"
 						return false
 					}
 				}
@@ -396,7 +440,7 @@ func c17R4(h H) {
 			}
 		}
 		r.Check(bad == "", "R4", "httpserver.makeHTTPServerWithTimeouts/decision-table", fn.Pos(),
-			"for every group of up to three sites the four listener timeouts are the smallest values set by any site, or the defaults when none sets one", sprintf("%d cases evaluated", nrun), bad)
+			"for every group of up to three sites the four listener timeouts are the smallest positive values set by any site (a site's `none` never lifts another site's timeout), 0 when every setting is none, or the defaults when no site sets one", sprintf("%d cases evaluated", nrun), bad)
 	}
 	if fn := h.fn("R4", hs, "makeHTTPServerWithHeaderLimit"); fn != nil {
 		bad := ""
